@@ -30,7 +30,7 @@ ASSUMPTIONS = [
 REQUIRED_CELLS = {
     'quick': ['op=add', 'op=sub_roundtrip', 'op=iadd', 'op=isub', 'op=sub_empty', 'op=add_empty', 'op=mul', 'op=div',
               'op=imul', 'op=idiv', 'op=neg', 'op=copy', 'op=copy_basis', 'op=backwards_r', 'op=backwards_none',
-              'op=item_to_set', 'op=set_to_item', 'items:int-conversions', 'op=item_imul', 'op=item_idiv', 'op=reduce', 'mixed-basis', 'neg-operand', 'ph=1', 'ph=0'],
+              'op=item_to_set', 'op=set_to_item', 'items:int-conversions', 'item:other-basis', 'op=item_copy_basis', 'op=rxn_add_item', 'op=rxn_isub_item', 'op=item_imul', 'op=item_idiv', 'op=reduce', 'mixed-basis', 'neg-operand', 'ph=1', 'ph=0'],
     'thorough': [],
 }
 
@@ -548,7 +548,8 @@ def prop_purity(ch, ctx):
 ITEM_OPS = ['item_to_set', 'item_to_set', 'set_to_item', 'set_to_item', 'held_item', 'slice', 'setX_all', 'item_imul',
             'item_imul', 'item_idiv', 'iter_imul', 'reduce',
             'reduce', 'item_copy', 'item_mul', 'item_add', 'item_neg', 'item_backwards', 'set_copy', 'set_copy_basis',
-            'set_add']
+            'set_add', 'item_copy_basis', 'item_copy_basis', 'rxn_add_item', 'rxn_sub_item', 'rxn_iadd_item',
+            'rxn_isub_item', 'item_add_rxn']
 
 
 def prop_items(ch, ctx):
@@ -694,6 +695,7 @@ def prop_items(ch, ctx):
     item = rset[i]
     nui, idxi = nus[i]
     want_nu, want_idx, want_X = nui, idxi, Xs[i]
+    want_basis = B
     if op == 'item_copy':
         res = ctx.call(op, item.copy, region=region)
     elif op == 'item_mul':
@@ -713,6 +715,58 @@ def prop_items(ch, ctx):
         if want_X == 0:
             ctx.reject('both conversions are zero')
         want_nu = (Xs[i] * nui + Xs[j] * nus[j][0]) / want_X
+    elif op == 'item_copy_basis':
+        # an item re-based through copy(basis): acts like the item on a feed, stoichiometry per unit of reactant in
+        # the requested basis (the set itself may be on either basis)
+        want_basis = ch.choice('to', ['mol', 'wt'])
+        region += f',to={want_basis}'
+        res = ctx.call(op, item.copy, want_basis, region=region)
+        want_nu, want_idx = rx.ref_stoich(w.specs[i], w.pnames, want_basis, w.MW, w.phases)
+        if want_basis != B:
+            ctx.cell('item:other-basis')
+    elif op in ('rxn_add_item', 'rxn_sub_item', 'rxn_iadd_item', 'rxn_isub_item', 'item_add_rxn'):
+        # a plain Reaction (on its own basis, possibly another one than the set's) combined with an item of the set
+        same = [k for k in range(n) if _norm_index(nus[k][1]) == _norm_index(idxi)]
+        j = same[ch.int('j', 0, len(same) - 1)]                  # stoichiometry of a: that of a member sharing the reactant
+        Xa = rx.draw_X(ch, 'a', 0.01, 1.0)
+        if 'sub' in op and abs(Xa - Xs[i]) < 0.25 * max(Xa, Xs[i]):
+            Xa = Xs[i] * ch.choice('Xa.factor', [2.0, 4.0, 0.5]) if Xs[i] else Xa
+        aspec = rx.RSpec(w.specs[j].nu, w.specs[j].reactant, Xa, w.specs[j].phase_of)
+        amode = ch.choice('a.mode', ['mol', 'wt_copy', 'wt_coeff'])
+        a, want_basis = rx.build_reaction(ch, 'a', aspec, w.pid, 'dict', amode, w.phases, True, ctx, site='build',
+                                          region=f'mode={amode},ph={int(w.tagged)}')
+        region += f',basisA={want_basis}'
+        if want_basis != B:
+            ctx.cell('item:other-basis')
+        nua, _ = rx.ref_stoich(aspec, w.pnames, want_basis, w.MW, w.phases)
+        nuiA, want_idx = rx.ref_stoich(w.specs[i], w.pnames, want_basis, w.MW, w.phases)
+        if op == 'item_add_rxn':
+            want_basis = B                                        # the left operand decides the basis
+            nua, _ = rx.ref_stoich(aspec, w.pnames, B, w.MW, w.phases)
+            nuiA = nui
+        a_before = snap(a)
+        sgn = -1.0 if 'sub' in op else 1.0
+        want_X = Xa + sgn * Xs[i]
+        want_nu = (Xa * nua + sgn * Xs[i] * nuiA) / want_X
+        if op == 'rxn_add_item':
+            res = ctx.call(op, lambda: a + item, region=region)
+        elif op == 'item_add_rxn':
+            res = ctx.call(op, lambda: item + a, region=region)
+        elif op == 'rxn_sub_item':
+            res = ctx.call(op, lambda: a - item, region=region)
+        else:
+            x = ctx.call('copy', a.copy, region=region)
+            def f():
+                y = x
+                if op == 'rxn_iadd_item': y += item
+                else: y -= item
+                return y
+            res = ctx.call(op, f, region=region)
+            if res is not x:
+                ctx.fail(f'{op}|{region}|not-in-place', 'in-place operator returned another object')
+        assert_pure(ctx, op, region, 'a', a, a_before)
+        if res is a or shares_storage(res, a) and op in ('rxn_add_item', 'rxn_sub_item', 'item_add_rxn'):
+            ctx.fail(f'{op}|{region}|shared-storage', 'the result is / shares storage with the Reaction operand')
     else:  # item_backwards
         spec = w.specs[i]
         new_r = ch.choice('new_reactant', [nm for nm in spec.nu if nm != spec.reactant] or [spec.reactant])
@@ -722,7 +776,11 @@ def prop_items(ch, ctx):
     assert_pure(ctx, op, region, 'set', rset, before)
     if res is item or shares_storage(res, rset):
         ctx.fail(f'{op}|{region}|shared-storage', 'the result shares storage with the set')
-    check_fields(ctx, op, region, res, want_nu, want_idx, want_X, B, w.phases, w.chems, cls=tmo.Reaction)
+    rtol_i = TOL_CANCEL if 'sub' in op else 1e-12
+    check_fields(ctx, op, region, res, want_nu, want_idx, want_X, want_basis, w.phases, w.chems, rtol=rtol_i, cls=tmo.Reaction)
+    # behaviour on a feed: like the operand reactions applied in parallel
+    apply(ctx, w, op + '.apply', region, res, rx.RefRxn('rxn', nu=want_nu, idx=want_idx, X=want_X), want_basis, feed, tgt, sphase,
+          rtol=TOL_CANCEL if 'sub' in op else TOL)
     def mut():
         res.X = 0.3125
         res.basis = 'wt' if res.basis == 'mol' else 'mol'
